@@ -216,7 +216,7 @@ def run(ctx):
         check('fd_derivative', lambda: fornberg.fd_derivative(fx, x, nn, 1), None, nn >= L or extra != 0, L=L, extra=extra, n=nn)
     # Residue
     for p in (1, 2, 3):
-        for o in (None, 1, 2, 3, 4, 5):
+        for o in (None, 0, 1, 2, 3, 4, 5):      # 0 is falsy: a default written as `order or ..` would swallow it
             check('Residue', lambda: Residue(lambda z: 1.0 / z ** p, pole_order=p, order=o),
                   'residue %s %d' % ('-' if o is None else o, p), o is not None and o <= p, pole_order=p, order=o)
     # Limit path
